@@ -52,43 +52,56 @@ mod __verif_c36 {
         assert!(fast == want, "C36.classified_fast_path_is_sql_like");
     }
 
-    // @harness tiers=quick,thorough
+    // @harness tiers=quick,thorough timeout=900
     // @encodes physical::operators::filter::like_match, physical::operators::filter::classify_like, physical::operators::filter::LikeKind::matches
-    // @bounds text of length 0..=2 over {a,b,c}, pattern of length 0..=2 over {a,b,%,_}; all 9 length pairs iterated concretely, all bytes symbolic
+    // @bounds text of length 0..=1 over {a,b,c}, pattern of length 0..=2 over {a,b,%,_}; the 6 length pairs iterated concretely, all bytes symbolic
     // @oracle textbook LIKE (% = any sequence incl. empty, _ = exactly one character, anything else literal); the empty pattern matches only the empty string; NOT LIKE is the negation on non-NULL operands (the interpreter negates this boolean)
-    // @out longer strings, non-ASCII text (one harness below), escape characters, every other scalar function (Arrow arrays in/out, regex, chrono, serde_json ...)
+    // @out longer strings, non-ASCII text, escape characters, every other scalar function (Arrow arrays in/out, regex, chrono, serde_json ...)
+    // @unwindset like_match:5
     #[kani::proof]
     #[kani::unwind(6)]
-    fn like_up_to_2x2() {
+    fn like_short_texts() {
         case(0, 0);
         case(0, 1);
         case(0, 2);
         case(1, 0);
         case(1, 1);
         case(1, 2);
+    }
+
+    // @harness tiers=quick,thorough timeout=900
+    // @encodes physical::operators::filter::like_match, physical::operators::filter::classify_like, physical::operators::filter::LikeKind::matches
+    // @bounds text of length 2 over {a,b,c} against patterns of length 0..=2 over {a,b,%,_}
+    // @oracle as like_short_texts
+    // @unwindset like_match:6
+    #[kani::proof]
+    #[kani::unwind(6)]
+    fn like_text2() {
         case(2, 0);
         case(2, 1);
         case(2, 2);
     }
 
-    // @harness tiers=quick,thorough
+    // @harness tiers=quick,thorough timeout=900
     // @encodes physical::operators::filter::like_match, physical::operators::filter::classify_like, physical::operators::filter::LikeKind::matches
-    // @bounds text of length 3 over {a,b,c} against patterns of length 2 and 3 over {a,b,%,_} (e.g. `%a%`, `a_%`, `_%_`, `%%a`)
-    // @oracle as like_up_to_2x2
+    // @bounds text of length 3 over {a,b,c} against patterns of length 3 over {a,b,%,_} (e.g. `%a%`, `a_%`, `_%_`, `%%a`, `a%b`)
+    // @oracle as like_short_texts
+    // @unwindset like_match:9
     #[kani::proof]
     #[kani::unwind(7)]
-    fn like_text3_pattern_2_and_3() {
-        case(3, 2);
+    fn like_text3_pattern3() {
         case(3, 3);
     }
 
-    // @harness tiers=thorough
+    // @harness tiers=thorough timeout=2400
     // @encodes physical::operators::filter::like_match, physical::operators::filter::classify_like, physical::operators::filter::LikeKind::matches
-    // @bounds patterns of length 3 against texts of length 0..=2 (pattern longer than the text)
-    // @oracle as like_up_to_2x2
+    // @bounds text of length 3 against patterns of length 2; patterns of length 3 against texts of length 0..=2
+    // @oracle as like_short_texts
+    // @unwindset like_match:9
     #[kani::proof]
     #[kani::unwind(7)]
-    fn like_pattern3_short_text() {
+    fn like_remaining_length_pairs() {
+        case(3, 2);
         case(0, 3);
         case(1, 3);
         case(2, 3);
